@@ -212,7 +212,7 @@ theorem emit_binary (s : Bool) : ∀ (l : List FRec) (last : Int),
   | cons f l ih =>
     intro last
     have e : Model.Thrift.emitFields (.binary s) ((f :: l).map conv) last =
-        Model.Thrift.wField (.binary s) (ofSpec f.t) f.id ++ f.body ++
+        Model.Thrift.wField (.binary s) (ofSpec f.t) f.id false ++ f.body ++
           Model.Thrift.emitFields (.binary s) (l.map conv) f.id := rfl
     rw [e, emitB, ← ih f.id]
     simp only [Model.Thrift.wField, code_ofSpec, be_eq, twos_eq, List.append_assoc]
